@@ -39,7 +39,6 @@ Has(s, i, c) == i <= Len(s) /\ s[i] = c
 RunEnd(s, i, C) == (CHOOSE j \in i..(Len(s) + 1) :
                        /\ (j > Len(s) \/ s[j] \notin C)
                        /\ \A m \in i..(j - 1) : s[m] \in C) - 1
-SetMin(X) == CHOOSE x \in X : \A y \in X : x <= y
 
 AsIs == RuleSet = "asis"
 \* minimal number of characters after the first one of a name: [_a-z][_a-z\d]+  vs  [_a-z][_a-z\d]*
@@ -62,12 +61,16 @@ MOne(s, i, c) == IF Has(s, i, c) THEN i ELSE 0
 \* sqstr / dqstr:  q(?:\\.|[^q\\])*q
 \* the closing quote is the first q preceded by an even number of consecutive backslashes
 \* (the alternation consumes backslashes in pairs \\. from the left)
-BsBefore(s, lo, j) == j - 1 - (CHOOSE m \in (lo - 1)..(j - 1) :
-                                  /\ (m = lo - 1 \/ s[m] # "BS")
-                                  /\ \A t \in (m + 1)..(j - 1) : s[t] = "BS")
+\* number of consecutive backslashes right before position j, not looking below position lo
+BsBefore(s, lo, j) == CHOOSE d \in 0..(j - lo) :
+                         /\ (d = j - lo \/ s[j - 1 - d] # "BS")
+                         /\ \A t \in 1..d : s[j - t] = "BS"
+Closes(s, lo, j, q) == s[j] = q /\ BsBefore(s, lo, j) % 2 = 0
 MStr(s, i, q) == IF Has(s, i, q)
-                 THEN LET close == {j \in (i + 1)..Len(s) : s[j] = q /\ BsBefore(s, i + 1, j) % 2 = 0}
-                      IN IF close = {} THEN 0 ELSE SetMin(close)
+                 THEN LET j == CHOOSE j \in (i + 1)..(Len(s) + 1) :
+                                  /\ (j = Len(s) + 1 \/ Closes(s, i + 1, j, q))
+                                  /\ \A m \in (i + 1)..(j - 1) : ~Closes(s, i + 1, m, q)
+                      IN IF j = Len(s) + 1 THEN 0 ELSE j
                  ELSE 0
 \* sep / dsep:  \s*(,)\s*   \s*(:)\s*
 MSep(s, i, c) == LET j == RunEnd(s, i, {"WS"})
